@@ -369,6 +369,11 @@ class C11(Property):
             for _ in range(rng.choice([0, 0, 1, 2])):
                 a = rng.randrange(0, 900)
                 motifs.append(gen_hit(rng, rng.choice(["NRPS-A_a3", "PKSI-KR_m1", "C1_dual_004-017"]), a, a + 20, 0))
+            if rng.random() < 0.15:
+                # a gene with abMotif hits only
+                doms = []
+                if not motifs:
+                    motifs = [gen_hit(rng, "NRPS-A_a3", 100, 120, 0)]
             genes.append({"name": f"gene{g}", "strand": strand if rng.random() < 0.85 else -strand,
                           "domains": doms, "motifs": motifs})
         if rng.random() < 0.1:
@@ -588,8 +593,13 @@ class C11(Property):
         installed = rng.sample(versions, rng.choice([1, 2, 3]))      # directory listing order is arbitrary
         pfam = {"stored": rng.choice(installed), "installed": installed,
                 "full": rng.choice(["latest"] + installed), "cluster": rng.choice(["latest"] + installed)}
+        then = None
+        if mut in ("stricter_score", "stricter_evalue", "boundary_score", "boundary_evalue") or (mut is None and rng.random() < 0.3):
+            # a third run, from the re-saved results: between the two earlier thresholds, stricter still, or the same
+            then = {"max_evalue": rng.choice([cur["max_evalue"], saved["max_evalue"], "1e-05", "1e-12", "1e-30"]),
+                    "min_score": rng.choice([cur["min_score"], saved["min_score"], "25.0", "49.9", "80.0"])}
         return {"kind": "hmmer", "module": rng.choice(["full_hmmer", "cluster_hmmer"]), "record_id": rng.choice(["rec1", "X.1"]),
-                "saved": saved, "cur": cur, "hits": hits, "op": op, "mut": mut, "pfam": pfam}
+                "saved": saved, "cur": cur, "hits": hits, "op": op, "mut": mut, "pfam": pfam, "then": then}
 
     def gen_tta(self, rng: random.Random) -> Dict[str, Any]:
         # sequence with a chosen GC content; genes with TTA codons on both strands
@@ -1584,6 +1594,18 @@ class C11(Property):
                     y.add_to_record(records[0])
                     obs["features_equal"] = feature_obs(rec_a) == feature_obs(records[0])
                     obs["domain_ids"] = [d.domain_id for d in records[0].get_pfam_domains()]
+                if case.get("then"):
+                    # a later run under yet other thresholds, starting from what this run saves
+                    t_e, t_s = fl(case["then"]["max_evalue"]), fl(case["then"]["min_score"])
+                    resaved = orjson.loads(orjson.dumps(y.to_json()))
+                    obs["resaved_thresholds"] = [dec_of(resaved["max evalue"]), dec_of(resaved["min score"])]
+                    module.MAX_EVALUE, module.MIN_SCORE = t_e, t_s
+                    third: Dict[str, Any] = {}
+                    self.cycle(third, resaved, lambda j: module.regenerate_previous_results(j, self.hmmer_record(case, cur_record_id), None),
+                               lambda z: z.to_json(), n=1)
+                    obs["then_outcome"] = third.get("outcome")
+                    obs["then_hits"] = len(third["_obj"].hits) if third.get("outcome") == "reuse" else None
+                    module.MAX_EVALUE, module.MIN_SCORE = max_e, min_s
                 if changed:
                     # a second regeneration under the same (new) thresholds must be stable
                     second: Dict[str, Any] = {}
@@ -2080,6 +2102,21 @@ class C11(Property):
             elif obs["run"].startswith("rerun:") and obs["run"] != "rerun:" + wanted:
                 spec_ok = False
                 detail = f"searched again in {obs['run']} although this module's option asks for {wanted}"
+        if kind == "hmmer" and "then_outcome" in obs:
+            cur_t = [dec_of(fl(case["cur"]["max_evalue"])), dec_of(fl(case["cur"]["min_score"]))]
+            if obs["resaved_thresholds"] != cur_t:
+                spec_ok = False
+                detail = detail or (f"the re-saved results state the thresholds {obs['resaved_thresholds']} although they were "
+                                    f"filtered with {cur_t}")
+            lenient = fl(case["then"]["max_evalue"]) > fl(case["cur"]["max_evalue"]) \
+                or fl(case["then"]["min_score"]) < fl(case["cur"]["min_score"])
+            if lenient and obs["then_outcome"] == "reuse":
+                spec_ok = False
+                detail = detail or ("results filtered at " + str(case["cur"]) + " were accepted by a later run at the more lenient "
+                                    + str(case["then"]) + " instead of being dropped")
+            if not lenient and obs["then_outcome"] != "reuse":
+                spec_ok = False
+                detail = detail or f"a later run at thresholds not more lenient did not reuse the re-saved results: {obs['then_outcome']}"
         failed_before = not spec_ok
         may = drv.get("may_reuse", True)
         if outcome == "reuse":
